@@ -66,6 +66,17 @@ def split_url(url: str) -> SplitURLType:
             raise ValueError("Invalid IPv6 URL")
         if has_left_bracket:
             bracketed_host = netloc.partition("[")[2].partition("]")[0]
+            # The brackets of a host have to enclose all of it: mirror the
+            # splitting done by split_netloc(), no data is allowed before the
+            # opening bracket or between the closing one and the port delimiter
+            hostinfo = netloc.rpartition("@")[2]
+            before, has_open, bracketed = hostinfo.partition("[")
+            if has_open:
+                bracketed_host, has_close, after = bracketed.partition("]")
+                if before or not has_close or (after and after[0] != ":"):
+                    raise ValueError("Invalid IPv6 URL")
+            elif "]" in hostinfo:
+                raise ValueError("Invalid IPv6 URL")
             # Valid bracketed hosts are defined in
             # https://www.rfc-editor.org/rfc/rfc3986#page-49
             # https://url.spec.whatwg.org/
